@@ -39,7 +39,8 @@ PROPS = {
                       "property (rules without a name check: known findings); Program.match accepts only exhausted input on its normal exit",
                 trusted=TRUSTED,
                 explanation="[P] U8c/d/e, F2; [E] F12 table; rejection of unbalanced parentheses is emergent and not decided",
-                witnesses=["c08_interface_end_name_mismatch", "c08_subroutine_end_name_mismatch", "c08_labelled_do_end_name_mismatch"]),
+                witnesses=["c08_interface_end_name_mismatch", "c08_subroutine_end_name_mismatch", "c08_labelled_do_end_name_mismatch",
+                           "c08_stray_end_do_inside_labelled_do", "c08_labelled_do_without_terminator"]),
     "C15": dict(level="other", enum=["enum_sentinels.py", "bounded_layout.py --only C15"],
                 claim="replace_omp_sentinels proved to overwrite exactly the two sentinel characters with blanks (length and every other column "
                       "unchanged); get_single_line proved to apply it to the normalised line before the line is stored or seen by anyone "
